@@ -32,7 +32,7 @@ def run_case_for(tag, case, reuse=12):
     res = dict(base, observed=obs)
     if mine:
         p = mine[0]
-        return dict(res, verdict="violated", what=p["what"], after_fault=p["after_fault"], after_block=p["after_block"], witness={"config_colang": app.co, "config_yaml": app.yaml, "case": sample, "turn": p["t"], "problem": p["what"], "detail": p["detail"], "all_problems": [(q["tag"], q["t"], q["what"]) for q in problems]})
+        return dict(res, verdict="violated", what=p["what"], after_fault=p["after_fault"], after_block=p["after_block"], fault_rail=p.get("fault_rail"), witness={"config_colang": app.co, "config_yaml": app.yaml, "case": sample, "turn": p["t"], "problem": p["what"], "detail": p["detail"], "all_problems": [(q["tag"], q["t"], q["what"]) for q in problems]})
     if not monitor_reached:
         # rail calls the sequential model expects (a dialog action is not a rail)
         stub = rc._Stub(case["cid"], rc.unpack_V(case))
